@@ -217,7 +217,11 @@ BlockStep(e) ==
                       \cup LifecycleViol("appchain", AppchainEdges, env.chain, ChainMap(e.chains, e.relay), ngov)
                       \cup LifecycleViol("role", RoleEdges, env.rl, StMap(e.rlist), ngov)
                       \cup LifecycleViol("node", NodeEdges, env.nd, StMap(e.nlist), ngov)
-                      \cup LifecycleViol("rule", RuleEdges, env.ra, StMap(e.rall), ngov)),
+                      \cup LifecycleViol("rule", RuleEdges, env.ra, StMap(e.rall), ngov)
+                      \cup ReturnViol("service", env.lst.service, env.svc, SvcMap(e.svc), ngov)
+                      \cup ReturnViol("appchain", env.lst.appchain, env.chain, ChainMap(e.chains, e.relay), ngov)
+                      \cup ReturnViol("role", env.lst.role, env.rl, StMap(e.rlist), ngov)
+                      \cup ReturnViol("node", env.lst.node, env.nd, StMap(e.nlist), ngov)),
       d |-> r.d, src |-> srcChainOf, pre |-> r.g]
 
 \* C14, grant clause: the sum of all balances may grow only by the documented grant to a NEWLY APPROVED governance or
@@ -244,7 +248,8 @@ Step(e) ==
             /\ env' = [svc |-> SvcMap(e.svc), h |-> e.h, bxh |-> e.bxh, unordered |-> {e.bxh \o ":" \o u : u \in ToSet(e.unordered)},
                        admins |-> ToSet(e.admins), relay |-> RelayMap(e.relay), rule |-> RuleMap(e.rules), chain |-> ChainMap(e.chains, e.relay),
                        rl |-> StMap(e.rlist), nd |-> StMap(e.nlist), rtyp |-> TypMap(e.rlist), grant |-> e.grant, ra |-> StMap(e.rall),
-                       black |-> {<<x.svc, x.src>> : x \in ToSet(e.black)}]
+                       black |-> {<<x.svc, x.src>> : x \in ToSet(e.black)},
+                       lst |-> [service |-> <<>>, appchain |-> <<>>, role |-> <<>>, node |-> <<>>]]
             /\ viol' = viol \cup (IF e.setupEqual THEN {} ELSE {<<nm, l + 1, "C01_SetupDiverged", 0>>})
             /\ drift' = drift
        [] e.ev = "Submit" -> /\ pending' = TRUE /\ UNCHANGED <<g, env, viol, drift, chainOfId>>
@@ -255,7 +260,15 @@ Step(e) ==
                 tv2 == TmetaViol(b.pre, e.h, e.tmeta, cmap)
             IN /\ g' = b.g /\ pending' = FALSE /\ chainOfId' = cmap
                /\ env' = [env EXCEPT !.svc = SvcMap(e.svc), !.h = e.h, !.relay = RelayMap(e.relay), !.rule = RuleMap(e.rules), !.chain = ChainMap(e.chains, e.relay),
-                                     !.rl = StMap(e.rlist), !.nd = StMap(e.nlist), !.rtyp = TypMap(e.rlist), !.ra = StMap(e.rall)]
+                                     !.rl = StMap(e.rlist), !.nd = StMap(e.nlist), !.rtyp = TypMap(e.rlist), !.ra = StMap(e.rall),
+                                     !.black = IF "black" \in DOMAIN e THEN {<<x.svc, x.src>> : x \in ToSet(e.black)} ELSE @,
+                                     !.lst = LET ngov == Cardinality({i \in 1..Len(e.txs) : e.txs[i].k \in {"gov", "vote", "withdraw", "invoke"}})
+                                                 nchg == NChanged(env.svc, SvcMap(e.svc)) + NChanged(env.chain, ChainMap(e.chains, e.relay))
+                                                         + NChanged(env.rl, StMap(e.rlist)) + NChanged(env.nd, StMap(e.nlist)) + NChanged(env.ra, StMap(e.rall)) IN
+                                             [service  |-> NextLast(env.lst.service, env.svc, SvcMap(e.svc), ngov, nchg),
+                                              appchain |-> NextLast(env.lst.appchain, env.chain, ChainMap(e.chains, e.relay), ngov, nchg),
+                                              role     |-> NextLast(env.lst.role, env.rl, StMap(e.rlist), ngov, nchg),
+                                              node     |-> NextLast(env.lst.node, env.nd, StMap(e.nlist), ngov, nchg)]]
                /\ viol' = viol \cup {<<nm, l + 1, x[1], x[2]>> : x \in b.v \cup tv2 \cup GrantAware(e, env)}
                /\ drift' = drift \cup {<<nm, l + 1, x>> : x \in b.d}
        [] e.ev \in {"ExecError", "Crashed"} ->
